@@ -138,11 +138,11 @@ package snaps
 //@   let B = wbuf[snapshot]
 //@   loop 1 invariant scsrc[s] == F && scunb[s] && s != nil && fsx[snapPath] && held[_m] == 1
 //@   loop 1 invariant 0 <= scpos[s] && scpos[s] <= ntok(F)
-//@   loop 1 invariant forall r Ref: old(alloc)[r] ==> scpos[r] == old(scpos)[r] && wbuf[r] == old(wbuf)[r]
+//@   loop 1 invariant forall r Ref: old(alloc)[r] ==> scpos[r] == old(scpos)[r] && scgen[r] == old(scgen)[r] && wbuf[r] == old(wbuf)[r]
 //@   loop 1 invariant (lineNumber == scpos[s] + 1 && (forall k in 0..scpos[s]: tok(F, k) != testID)) || (scpos[s] == ntok(F) && !found(F, testID))
 //@   loop 1.1 invariant scsrc[s] == F && scunb[s] && s != nil && fsx[snapPath] && held[_m] == 1
 //@   loop 1.1 invariant 1 <= lineNumber && lineNumber <= scpos[s] && scpos[s] <= ntok(F)
-//@   loop 1.1 invariant forall r Ref: old(alloc)[r] ==> scpos[r] == old(scpos)[r] && wbuf[r] == old(wbuf)[r]
+//@   loop 1.1 invariant forall r Ref: old(alloc)[r] ==> scpos[r] == old(scpos)[r] && scgen[r] == old(scgen)[r] && wbuf[r] == old(wbuf)[r]
 //@   loop 1.1 invariant tok(F, lineNumber - 1) == testID && (forall k in 0..lineNumber - 1: tok(F, k) != testID)
 //@   loop 1.1 invariant forall k in lineNumber..scpos[s]: tok(F, k) != "---"
 //@   loop 1.1 invariant nl(B) == scpos[s] - lineNumber + 1 && seg(B, nl(B) - 1) == ""
@@ -280,12 +280,12 @@ package snaps
 //@   mode lines
 //@   requires s != nil && scunb[s] && 0 <= scpos[s] && scpos[s] <= ntok(scsrc[s])
 //@   let F = scsrc[s]
-//@   assigns scpos[s]
+//@   assigns scpos[s], scgen[s]
 //@   ensures old(scpos[s]) <= scpos[s] && scpos[s] <= ntok(F)
 //@   ensures (scpos[s] > old(scpos[s]) && tok(F, scpos[s] - 1) == "---" && (forall k in old(scpos[s])..scpos[s] - 1: tok(F, k) != "---"))
 //@        || (scpos[s] == ntok(F) && (forall k in old(scpos[s])..ntok(F): tok(F, k) != "---"))
 //@   loop 1 invariant old(scpos[s]) <= scpos[s] && scpos[s] <= ntok(F) && (forall k in old(scpos[s])..scpos[s]: tok(F, k) != "---")
-//@   loop 1 invariant forall r Ref: r != s ==> scpos[r] == old(scpos)[r]
+//@   loop 1 invariant forall r Ref: r != s ==> scpos[r] == old(scpos)[r] && scgen[r] == old(scgen)[r]
 //@
 //@ func overwriteFile(f, b) returns (err)
 //@   mode lines
@@ -315,7 +315,7 @@ package snaps
 //@   ensures [other] err == nil && found(F, testID) && uniqueHdr(F, testID) && wf(F) ==> (forall id2 Str: id2 != testID && id2 != "---" && lacks(snapshot, id2) && lacks(body(F, testID), id2) ==> found(F2, id2) == found(F, id2) && (found(F, id2) && apart(F, testID, id2) ==> body(F2, id2) == body(F, id2)))
 //@   loop 1 invariant scsrc[s] == F && scunb[s] && s != nil && f != nil && fpath[f] == snapPath && held[_m] == 2 && fsc[snapPath] == F && fsx[snapPath] && updatedSnapFile != nil && !old(alloc)[updatedSnapFile] && !old(alloc)[s] && !old(alloc)[f] && s != f && f != updatedSnapFile && s != updatedSnapFile
 //@   loop 1 invariant 0 <= scpos[s] && scpos[s] <= ntok(F) && seg(B, nl(B) - 1) == ""
-//@   loop 1 invariant forall r Ref: old(alloc)[r] ==> scpos[r] == old(scpos)[r] && wbuf[r] == old(wbuf)[r]
+//@   loop 1 invariant forall r Ref: old(alloc)[r] ==> scpos[r] == old(scpos)[r] && scgen[r] == old(scgen)[r] && wbuf[r] == old(wbuf)[r]
 //@   loop 1 invariant found(F, testID) && uniqueHdr(F, testID) ==>
 //@         (scpos[s] <= p && nl(B) == scpos[s] + 1 && (forall w in 0..scpos[s]: seg(B, w) == tok(F, w)))
 //@      || (scpos[s] > q && nl(B) == scpos[s] + d + 1 && (forall w in 0..scpos[s] + d: seg(B, w) == updTarget(F, testID, snapshot, w)))
@@ -1657,7 +1657,7 @@ package snaps
 //@         && domheap("map[string]string")[r0] == old(domheap("map[string]string"))[r0] && valheap("map[string]string")[r0] == old(valheap("map[string]string"))[r0]
 //@         && domheap("map[string]int")[r0] == old(domheap("map[string]int"))[r0] && valheap("map[string]int")[r0] == old(valheap("map[string]int"))[r0]
 //@         && domheap("map[string]map[string]int")[r0] == old(domheap("map[string]map[string]int"))[r0] && valheap("map[string]map[string]int")[r0] == old(valheap("map[string]map[string]int"))[r0]
-//@         && wbuf[r0] == old(wbuf)[r0] && scpos[r0] == old(scpos)[r0] && foff[r0] == old(foff)[r0]
+//@         && wbuf[r0] == old(wbuf)[r0] && scpos[r0] == old(scpos)[r0] && scgen[r0] == old(scgen)[r0] && foff[r0] == old(foff)[r0]
 //@   let fsxKept = fsx == old(fsx)
 //@   let gate = fsxKept && (!update && !sort ==> fswrites == old(fswrites) && fsc == old(fsc)) && (forall p Str {fsc[p]}: (forall k in 0..len(used): used[k] != p) ==> fsc[p] == old(fsc)[p])
 //@   let locals = tests != nil && !old(alloc)[tests] && data != nil && !old(alloc)[data] && (registry != nil ==> old(alloc)[registry])
